@@ -2,7 +2,7 @@
 # usage: tools/seedsweep.sh [dir-prefix...]  — runs every kept seeded change (seeded/<dir>/patch.diff) through the check that
 # is recorded as detecting it (meta.json: detected_by, default = the seed's property) and writes seeded/DETECTION.tsv
 cd /verif
-out=seeded/DETECTION.tsv
+out=${OUT:-seeded/DETECTION.tsv}
 : > $out.tmp
 for d in seeded/*/; do
   d=${d%/}; name=$(basename $d)
